@@ -42,7 +42,7 @@ PROP_UNITS = {
     'C09': ['tables', 'classify'],
     'C10': ['builder', 'regexp', 'gates', 'order', 'dfa'],
     'C11': ['escape', 'builder', 'format', 'nested'],
-    'C12': ['cli', 'gates'],
+    'C12': ['cli', 'gates', 'builder'],
     'C13': ['rep', 'splice', 'builder', 'render', 'trie'],
     'C14': ['python'],
     'C15': ['render', 'indent'],
